@@ -38,3 +38,73 @@ def Disjoint (size : Nat) : Nat → List LEdit → Prop
   | cur, e :: es => cur ≤ e.off ∧ e.off + e.del ≤ size ∧ Disjoint size (e.off + e.del) es
 
 end GtirbVerif.Batch
+
+/-! ### the loop of `_apply_modifications` on the IR
+
+`Batch.positions` / `Batch.seqSplice` above describe the loop at the level of bytes.  The
+functions below are the loop itself: every request of the block is carried out by
+`IR.insert` / `IR.delete` on the block the previous request returned (`actual_block`), at
+`actual_offset = offset + total_insert_len - (actual_block.offset - block.offset)`. -/
+namespace GtirbVerif.IR
+open GtirbVerif.Listing
+
+/-- the ids of the block table -/
+def IR.ids (ir : IR) : List Nat := ir.blocks.map (·.id)
+
+/-- one resolved request of a block: `_InsertionOrReplacement` with its assembled patch, or
+`_Deletion` -/
+inductive Mod
+  | ins (off repl : Nat) (p : Patch)
+  | del (off len : Nat) (toProxy : Bool)
+  deriving Inhabited
+
+def Mod.off : Mod → Nat
+  | .ins o _ _ => o
+  | .del o _ _ => o
+
+/-- length of the replaced / deleted range (`scope._replacement_length()`) -/
+def Mod.len : Mod → Nat
+  | .ins _ r _ => r
+  | .del _ l _ => l
+
+/-- the bytes the request puts there -/
+def Mod.bytes : Mod → List Nat
+  | .ins _ _ p => p.text.data
+  | .del _ _ _ => []
+
+/-- `block_delta = actual_block.offset - block.offset;
+    actual_offset = offset + total_insert_len - block_delta` -/
+def actualOffset (origOff : Nat) (ab : Block) (total : Int) (off : Nat) : Int :=
+  (off : Int) + total - ((ab.off : Int) - (origOff : Int))
+
+/-- The loop of `_apply_modifications` over the resolved requests of one block. `origOff` is
+`block.offset` of the block the requests were registered for, `actual` the block the
+previous request returned (`none`: `delete` removed it entirely), `total` the running
+`total_insert_len`. -/
+def IR.applyMods (origOff : Nat) : IR → Option Nat → Int → List Mod → Except Err IR
+  | ir, _, _, [] => .ok ir
+  | _, none, _, _ :: _ => .error (.assertion "isinstance(actual_block, gtirb.ByteBlock)")
+  | ir, some a, total, m :: ms =>
+    match ir.block? a with
+    | none => .error (.assertion "block not in module")
+    | some ab =>
+      let ao := actualOffset origOff ab total m.off
+      if ao < 0 then .error (.assertion "0 <= offset")
+      else
+        match m with
+        | .ins _ repl p =>
+          match ir.insert a ao.toNat repl p with
+          | .error e => .error e
+          | .ok (ir', last) => IR.applyMods origOff ir' (some last) (total + (p.text.data.length : Int) - (repl : Int)) ms
+        | .del _ len px =>
+          match ir.delete a ao.toNat len px with
+          | .error e => .error e
+          | .ok (ir', r) => IR.applyMods origOff ir' r (total - (len : Int)) ms
+
+/-- the request as a listing edit (what `Listing.spliceSpec` consumes): only offset, removed
+length and inserted bytes matter for the bytes -/
+def Mod.toLEdit (m : Mod) : LEdit :=
+  { block := 0, off := m.off, del := m.len, ins := m.bytes, labels := [], aligns := [], proxy := false, order := 0,
+    tailCode := true, exprs := [], exprSizes := [] }
+
+end GtirbVerif.IR
